@@ -44,7 +44,10 @@ SPEC = {
     'nestings of rank 2 (quick: seeded sample), 3-level samples; init, what the body sees, state after apply, '
     'get_partition_spec; the same for NNX modules with sharding annotations wrapped by bridge.ToLinen (NNXMeta boxes; '
     'NNXMeta.add_axis/remove_axis also in the exhaustive unit scope); Linen collections lifted In(k)-only / Out(k)-only / broadcast with three different axes and NNX '
-    'StateAxes with a different axis per substate (all axis triples/pairs in thorough, seeded sample in quick); '
+    'StateAxes with a different axis per substate (all axis triples/pairs in thorough, seeded sample in quick); NNX StateAxes '
+    'over three annotated variable types in every filter order (broadcast-first, int-first, Carry for scan, several int '
+    'groups with different axes, catch-all tail): creation through nnx.vmap/nnx.scan out_axes, body view and state after '
+    'nnx.vmap/nnx.scan in_axes (16 fixed layouts + seeded random ones); '
     'a sample executed for real and compared bit-for-bit with the raw-array run; '
     'logical_to_mesh_axes: all rule lists of length<=2 (thorough <=3) over 3 logical x 6 mesh values x 9 name tuples '
     'plus random lists up to 8 rules; boxes: unbox/replace_boxed/Variable.value setter on nested boxes; '
@@ -910,6 +913,187 @@ def check_nnx_state_axes(ctx, drv, cases):
         ctx.violation('nnx-stateaxes-model-mismatch', f'model {m}, impl {o["init"]}', case, concrete=False)
 
 
+# ---- NNX: StateAxes in every filter order (broadcast / carry / several int groups) ---------------
+
+SA_VARS = {  # attribute -> (variable type, filter name, base shape, base names)
+  'w': ('Param', [3, 5], ['in', 'out']),
+  'c': ('BatchStat', [7], ['cn']),
+  'h': ('Cache', [11, 13], ['ha', 'hb']),
+}
+SA_TYPES = {'Param': nnx.Param, 'BatchStat': nnx.BatchStat, 'Cache': nnx.Cache, '...': ...}
+
+
+class SALeaf(nnx.Module):
+  def __init__(self, key):
+    self.w = nnx.Param(int_init(key, (3, 5)), sharding=('in', 'out'))
+    self.c = nnx.BatchStat(jnp.zeros((7,)), sharding=('cn',))
+    self.h = nnx.Cache(jnp.zeros((11, 13)), sharding=('ha', 'hb'))
+
+
+def _sa_axis(a):
+  return nnx.Carry if a == 'carry' else a
+
+
+def _sa_state_axes(layout, carry_as=None):
+  return nnx.StateAxes({SA_TYPES[f]: (_sa_axis(a) if a != 'carry' else (nnx.Carry if carry_as is None else carry_as[0])) for f, a in layout})
+
+
+def _sa_axis_of(layout, attr):
+  """axis the layout gives to a variable: first filter that matches its type ('...' matches everything)."""
+  t = SA_VARS[attr][0]
+  for f, a in layout:
+    if f == t or f == '...':
+      return a
+  raise ValueError(attr)
+
+
+def sa_observe(kind, layout, n):
+  """layout: ordered [(filter name, axis)], axis in int | None | 'carry' (scan apply only).
+  Creation always goes through nnx.vmap with the same filter order (carry -> None: created once, not stacked);
+  for scan, creation through nnx.scan is tried as well when every axis is an int."""
+  tm = {nnx.PARTITION_NAME: 'L'}
+  create_layout = [(f, None if a == 'carry' else a) for f, a in layout]
+  keys = jax.random.split(jax.random.key(0), n)
+  f_create = nnx.vmap(lambda key: SALeaf(key), in_axes=0, out_axes=_sa_state_axes(create_layout), axis_size=n, transform_metadata=tm)
+  m = nnx.eval_shape(lambda: f_create(keys))
+  obs = {'init': {a: _nnx_var_json(getattr(m, a)) for a in SA_VARS}}
+  if kind == 'scan' and all(isinstance(a, int) for _f, a in layout):
+    f_scan = nnx.scan(lambda key: SALeaf(key), in_axes=0, out_axes=_sa_state_axes(layout), length=n, transform_metadata=tm)
+    ms = nnx.eval_shape(lambda: f_scan(keys))
+    obs['init_scan'] = {a: _nnx_var_json(getattr(ms, a)) for a in SA_VARS}
+  mutable = [a for a in SA_VARS if _sa_axis_of(layout, a) is not None]
+
+  def body(mod, c, x):
+    for a in SA_VARS:
+      SEEN.append((a, _nnx_var_json(getattr(mod, a))))
+    for a in mutable:
+      v = getattr(mod, a)
+      v.value = v.value + x
+    y = x * jnp.sum(mod.w.value)
+    return c + y, y
+
+  axes = _sa_state_axes(layout)
+  if kind == 'vmap':
+    g = nnx.vmap(body, in_axes=(axes, 0, 0), out_axes=0, transform_metadata=tm)
+  else:
+    g = nnx.scan(body, in_axes=(axes, nnx.Carry, 0), out_axes=(nnx.Carry, 0), transform_metadata=tm)
+  c, xs = level_inputs([(kind, 0, 'L', n)])
+  gd, st = nnx.split(m)
+
+  def run(state):
+    mm = nnx.merge(gd, state)
+    out = g(mm, c, xs)
+    return out, nnx.state(mm)
+
+  SEEN.clear()
+  r = jax.eval_shape(run, st)
+  obs['seen'] = _seen_summary()
+  obs['after'] = {a: _nnx_var_json(r[1][a]) for a in SA_VARS}
+  return obs
+
+
+def check_nnx_state_axes_orders(ctx, drv, cases):
+  for kind, layout in cases:
+    n = 2
+    layout = [tuple(x) for x in layout]
+    case = {'kind': 'nnx-stateaxes-order', 'transform': kind, 'layout': [list(x) for x in layout]}
+    ctx.case(case)
+    pat = ','.join('I' if isinstance(a, int) else ('N' if a is None else 'C') for _f, a in layout)
+    ctx.count('nnx_stateaxes_order_' + kind, pat)
+    r = call(lambda: sa_observe(kind, layout, n))
+    if r[0] != 'ok':
+      ctx.violation('nnx-stateaxes-order-raises', f'nnx.{kind} with transform_metadata and StateAxes {layout} raised {r[1]}', case)
+      continue
+    o = r[1]
+    base = {a: base_box(SA_VARS[a][1], SA_VARS[a][2]) for a in SA_VARS}
+    want = {}
+    for a in SA_VARS:
+      k = _sa_axis_of(layout, a)
+      want[a] = base[a] if not isinstance(k, int) else {'names': py_insert_norm(SA_VARS[a][2], k, 'L'), 'inner': {'raw': py_insert_norm(SA_VARS[a][1], k, n)}}
+    bad = None
+    for a in SA_VARS:
+      got = o['init'][a]
+      if len(got.get('names', [])) != len(_raw_of(got)):
+        bad = ('nnx-stateaxes-order-init-misaligned', f'nnx.vmap StateAxes {layout}: {a} has names {got.get("names")} for shape {_raw_of(got)}')
+        break
+    if not bad and o['init'] != want:
+      bad = ('nnx-stateaxes-order-init-misaligned', f'nnx.vmap out_axes StateAxes {layout}: created {o["init"]}; by axis the variables are {want}')
+    elif not bad and 'init_scan' in o and o['init_scan'] != want:
+      bad = ('nnx-stateaxes-order-init-misaligned', f'nnx.scan out_axes StateAxes {layout}: created {o["init_scan"]}; by axis the variables are {want}')
+    elif not bad and o['seen'] != {a: [base[a]] for a in SA_VARS}:
+      bad = ('nnx-stateaxes-order-body-sees-wrong', f'nnx.{kind} in_axes StateAxes {layout}: body saw {o["seen"]}, expected every variable without the partition name: {base}')
+    elif not bad and o['after'] != want:
+      bad = ('nnx-stateaxes-order-after-apply', f'nnx.{kind} StateAxes {layout}: after apply {o["after"]}, expected {want}')
+    if bad:
+      ctx.violation(bad[0], bad[1], case)
+      continue
+    reqs = []
+    for a in SA_VARS:
+      k = _sa_axis_of(layout, a)
+      lv = [[k, 'L', n]] if isinstance(k, int) else []
+      reqs += [('init_through', [lv, base[a]]), ('apply_in', [lv, want[a]])]
+    m = drv.run(reqs)
+    exp = []
+    for a in SA_VARS:
+      exp += [('ok', want[a]), ('ok', base[a])]
+    if m != exp:
+      ctx.disagreements_checked += 1
+      ctx.violation('nnx-stateaxes-order-model-mismatch', f'model {m}, impl {o}', case, concrete=False)
+      continue
+    # the routing model of _update_variable_sharding_metadata: which state gets which axis
+    groups = [[a for a in sorted(SA_VARS) if next(i for i, (f2, _a) in enumerate(layout) if f2 in (SA_VARS[a][0], '...')) == fi] for fi in range(len(layout))]
+    j_axes = lambda lay: [a if (a is None or isinstance(a, int)) else 'carry' for _f, a in lay]
+    create_layout = [(f, None if a == 'carry' else a) for f, a in layout]
+    v_states = [[SA_VARS[a][2] for a in g] for g in groups]
+    r1 = drv.run([('sa_add', ['vmap', j_axes(create_layout), v_states, 'L'])])[0]
+    got1 = {a: o['init'][a]['names'] for a in SA_VARS}
+    mod1 = {a: r1[1][gi][ai] for gi, g in enumerate(groups) for ai, a in enumerate(g)} if r1[0] == 'ok' else None
+    ok = mod1 == got1
+    if ok and kind == 'scan':
+      vec = [gi for gi, (_f, a) in enumerate(layout) if isinstance(a, int)]
+      r2 = drv.run([('sa_add', ['scan', j_axes(layout), [v_states[gi] for gi in vec], 'L'])])[0]
+      mod2 = {a: r2[1][vi][ai] for vi, gi in enumerate(vec) for ai, a in enumerate(groups[gi])} if r2[0] == 'ok' else None
+      got2 = {a: o['after'][a]['names'] for gi in vec for a in groups[gi]}
+      ok = mod2 == got2
+    if not ok:
+      ctx.disagreements_checked += 1
+      ctx.violation('nnx-stateaxes-routing-model-mismatch', f'StateAxes routing model differs on {case}', case, concrete=False)
+
+
+def sa_random_layout(rng, kind):
+  """a random filter order with a random axis per filter; the Param always gets an int axis."""
+  import itertools as _it
+
+  while True:
+    names = ['Param', 'BatchStat', 'Cache']
+    rng.shuffle(names)
+    if rng.random() < 0.35:
+      names = names[: rng.randrange(1, 3)] + ['...']
+    layout = []
+    for f in names:
+      if f == '...':
+        rest = [SA_VARS[a] for a in SA_VARS if SA_VARS[a][0] not in names]
+        minrank = min(len(v[1]) for v in rest)
+        choices = [None, None] + list(range(-(minrank + 1), minrank + 1)) + (['carry'] if kind == 'scan' else [])
+      else:
+        rank = [len(v[1]) for v in SA_VARS.values() if v[0] == f][0]
+        choices = [None, None] + list(range(-(rank + 1), rank + 1)) + (['carry', 'carry'] if kind == 'scan' else [])
+      layout.append((f, rng.choice(choices)))
+    # the Param is initialised from the per-lane key, so it has to be stacked (an int axis)
+    if isinstance(_sa_axis_of(layout, 'w'), int):
+      return layout
+
+
+SA_FIXED = (
+  [('vmap', [('BatchStat', None), ('Param', k), ('...', None)]) for k in (0, 1, 2, -1)]
+  + [('scan', [('BatchStat', None), ('Param', k), ('...', None)]) for k in (0, 1, 2, -1)]
+  + [('vmap', [('Param', 1), ('BatchStat', None), ('Cache', -1)]), ('vmap', [('BatchStat', None), ('Param', 1), ('Cache', -1)]),
+     ('scan', [('Param', 1), ('BatchStat', None), ('Cache', -1)]), ('scan', [('BatchStat', None), ('Param', 1), ('Cache', -1)]),
+     ('scan', [('Cache', 'carry'), ('Param', 2), ('BatchStat', None)]), ('scan', [('BatchStat', None), ('Cache', 'carry'), ('Param', 0)]),
+     ('scan', [('Param', 0), ('BatchStat', 1), ('Cache', -1)]), ('scan', [('Cache', 2), ('...', 0)])]
+)
+
+
 # ---- real execution: boxed computes like raw ----------------------------------------------------
 
 
@@ -1303,9 +1487,11 @@ def run(ctx):
   check_transform(ctx, drv, 'nnx', nested3[: len(nested3) // 2])
   mark('transforms_eval_shape')
   inout = [(kind, k1, k2, k3) for kind in ('vmap', 'scan') for k1 in range(-3, 3) for k2 in range(-2, 2) for k3 in range(-2, 2)]
-  check_linen_inout(ctx, drv, inout if thorough else rng.sample(inout, 24))
+  check_linen_inout(ctx, drv, inout if thorough else rng.sample(inout, 16))
   sax = [(kind, kw, kc) for kind in ('vmap', 'scan') for kw in range(-3, 3) for kc in range(-3, 3)]
-  check_nnx_state_axes(ctx, drv, sax if thorough else rng.sample(sax, 20))
+  check_nnx_state_axes(ctx, drv, sax if thorough else rng.sample(sax, 8))
+  n_sa = 10 if not thorough else 250
+  check_nnx_state_axes_orders(ctx, drv, list(SA_FIXED) + [(kind, sa_random_layout(rng, kind)) for kind in ('vmap', 'scan') for _ in range(n_sa)])
   mark('inout_stateaxes')
   in_range2 = [c for c in nested2 if _levels_in_range(c['levels'], 2)]
   n_exec = 3 if not thorough else 12
@@ -1357,6 +1543,8 @@ def _run_case(ctx, drv, obj):
     check_real_exec(ctx, case['api'], [{'levels': [tuple(l) for l in case['levels']], 'shape': case['shape'], 'names': case['names']}])
   elif kind == 'inout':
     check_linen_inout(ctx, drv, [(case['transform'], case['k_params'], case['k_aux_out'], case['k_consts_in'])])
+  elif kind == 'nnx-stateaxes-order':
+    check_nnx_state_axes_orders(ctx, drv, [(case['transform'], case['layout'])])
   elif kind == 'nnx-stateaxes':
     check_nnx_state_axes(ctx, drv, [(case['transform'], case['k_param'], case['k_batchstat'])])
   elif kind == 'l2m':
